@@ -10,6 +10,7 @@ import (
 	"html"
 	"html/template"
 	"io"
+	"maps"
 	"net/http"
 	"reflect"
 	"sort"
@@ -565,6 +566,19 @@ func InitializeContext(ctx context.Context) context.Context {
 	v := &contextValue{renderState: &renderState{}}
 	ctx = context.WithValue(ctx, contextKey, v)
 	return ctx
+}
+
+// snapshotRenderState returns a function that puts the render state of ctx back
+// to what it is now. It does nothing if ctx has not been initialized.
+func snapshotRenderState(ctx context.Context) (restore func()) {
+	v, ok := ctx.Value(contextKey).(*contextValue)
+	if !ok {
+		return func() {}
+	}
+	ss, onceHandles := maps.Clone(v.ss), maps.Clone(v.onceHandles)
+	return func() {
+		v.ss, v.onceHandles = ss, onceHandles
+	}
 }
 
 func getContext(ctx context.Context) (context.Context, *contextValue) {
